@@ -77,6 +77,8 @@ def stmt_items(stmts):
     for s in stmts:
         if isinstance(s, ast.Expr) and isinstance(s.value, ast.Call):
             name = attr_chain(s.value.func)
+            if name and (name.startswith("logger.") or name.startswith("logging.") or name in ("warnings.warn", "print")):
+                continue          # diagnostics do not take part in the step
             items.append(f".call {lstr(name or '?')}")
         elif isinstance(s, ast.Expr) and isinstance(s.value, ast.Constant):
             continue  # docstring / bare string
